@@ -11,7 +11,7 @@ CLAIMED = {
  'C01': ('Theorems overlay_lookup / overlay_longest / overlay_none / overlay_frame / call_delivers / call_injects_only_bound '
          'hold for every store, scope depth, signature and argument split; the mirror (getBindings, wrapperCall, pyBind) is tied to '
          'gin.config by running generated registries, bindings, scope chains and calls on both and comparing what each probe received; '
-         'an independent Python statement of C01 is evaluated on the implementation as well.',
+         'an independent Python statement of C01 is evaluated on the implementation as well. Tables on the real code: a method whose wrapper is fetched or called before its class is registered; calls whose scope managers are created before any of them is entered; a function registered again in interactive mode with reordered parameters.',
          BASE + 'Modelled, not verified: inspect.getfullargspec (signatures arrive as data), Python argument binding (pyBind), '
          'copy.deepcopy of reference-free values = identity.'),
  'C09': ('Theorems item_restores / items_restores (every exit path incl. exceptions and invalid arguments, any depth) / enter_semantics / '
@@ -32,7 +32,7 @@ CLAIMED = {
          'Theorems parseKey_sound / bind_sound / bind_reject_unchanged / finalize_hooks_validated / method_needs_class hold for every '
          'registry, key spelling and state; every binding path of the mirror goes through parseKey; the mirror is tied to gin.config by '
          'generated binding attempts of every validity class through tuple / list / string keys, config text, blocks and finalize hooks, '
-         'with the whole store observed after each; an independent Python reference of the validity rule judges the implementation.',
+         'with the whole store observed after each; an independent Python reference of the validity rule judges the implementation. Table on the real code: a functools.partial as a configurable (the consumed parameter is refused on every binding path).',
          BASE + 'Modelled, not verified: signature inspection; the store is observed through gin.config._CONFIG.'),
  'C12': ('Theorems locked_rejects_bind / locked_rejects_register / finalize_twice / finalize_outcome / unlock_restores (every body, nested, '
          'raising) / lock_changes_only_by / hook_conflict_detected / finalize_rejects_invalid hold for every state and history; tied to '
@@ -94,7 +94,7 @@ CLAIMED = {
  'C20': ('Theorems clear_total / clear_pristine / clear_fields / clear_constants / clear_observationally_fresh (every continuation of '
          'operations) / clear_idempotent hold for every state; tied to gin.config by random histories (binds, finalize, nested unlocks, '
          'calls under scopes, singleton uses, colliding constants in interactive mode, failed operations) followed by clear_config and a '
-         'tail of observers and calls that is also run in a fresh interpreter with only the registrations.',
+         'tail of observers and calls that is also run in a fresh interpreter with only the registrations. Tables on the real code: a singleton whose constructor fails, then clear_config (or not), then the same scope name; clear_config after printing the configuration failed (run aside with a time limit).',
          BASE + 'config_str / operative_config_str are compared structurally through the stores here; their text is C06/C07.'),
  'C02': ('Theorem parseValue_complete: every layout (line breaks and comments after every opener, colon, comma, closer and string piece; '
          'optional trailing commas; the shapes () (x) (x,)) of every literal tree of atoms, numbers with a leading minus, runs of adjacent '
@@ -102,7 +102,7 @@ CLAIMED = {
          'literal and stops right after it - proved by mutual structural induction on the laid-out literal about the token-level mirror '
          'of config_parser; plus layout_irrelevant, statement_rejects_trailing, minus_requires_basic, adjacent_strings_concat. The mirror '
          'runs on Python\'s own token stream and is compared statement by statement with the real parser on generated literals in random '
-         'layouts and on a near-miss stream; ast.literal_eval of the same text is the independent oracle (value and type).',
+         'layouts and on a near-miss stream; ast.literal_eval of the same text is the independent oracle (value and type). Table on the real code: an equal literal of another type, zero sign or element types bound over the first (what is stored is the last text\'s value and type).',
          BASE + 'Partial: text->tokens (tokenize) and token->atom (ast.literal_eval of one token) are CPython\'s; the completeness theorem '
          'covers str pieces (not bytes pieces) in adjacent concatenation; '
          'soundness (nothing outside the grammar is accepted) is tested by the near-miss stream, not proved. D9 is a recorded finding.'),
@@ -116,7 +116,7 @@ CLAIMED = {
          'own token stream and is compared statement by statement (incl. line numbers) with config_parser.ConfigParser on statement '
          'lists rendered in two independently drawn layouts (comments, blank lines, continuations, spacing, flat vs block form, '
          'indentation width, CRLF, form feed, trailing newline) and on a malformed-selector stream; both layouts must give the same '
-         'bindings, imports and includes.',
+         'bindings, imports and includes. Table through gin.parse_config with skip_unknown: an unknown configurable written as a block or flat, at three positions among known bindings - one configuration for all layouts.',
          BASE + 'Partial: the statement-level completeness theorem covers flat bindings (the tokens of a scoped name are taken with the fact '
          'that parseSelector accepts them, shown for concrete names); a sequence mixing blocks and flat statements, imports and includes '
          'are covered by the correspondence only. '
@@ -125,7 +125,7 @@ CLAIMED = {
          'fuel-indexed evaluator, by induction over all five mutually recursive evaluation functions) / query_after_call hold for every '
          'store, value nesting, scope and fuel; the evaluator is tied to gin.config by comparing the complete per-target call log (scope '
          'seen, values received, fresh result indices) of nested reference DAGs under random ambient scopes and caller overrides, with '
-         'every probe mutating the containers it receives and the store re-observed afterwards.',
+         'every probe mutating the containers it receives and the store re-observed afterwards. Tables on the real code (two registrations of one function; referenced configurables that raise an Exception or a bare BaseException) and a stream of C19-generated dynamic-registration files that hold references, judged by C19\'s machinery.',
          BASE + 'Partial: aliasing cannot be exhibited by the immutable model (it is detected as disagreement after mutation); deepcopy '
          'traversal order is mirrored; each textual reference occurrence is a distinct object; acyclic configurations.'),
  'C05': ('Theorems constant_delivers_identity / macro_reads_store_at_use / constant_rules / constant_clash_iff (via the suffix-map '
